@@ -45,5 +45,5 @@ func ruleFSReadersPure(r *Run, p *Program, rule string) {
 			}
 		}
 	}
-	r.universe(rule, n, 5)
+	r.universe(rule, n, 3)
 }
